@@ -148,6 +148,52 @@ def check_case(ctx, case):
     return good
 
 
+BAD_UTF8 = [b"\xe9", b"caf\xe9", b"\xff\xfe", b"\xc3(", b"\xc0\xaf", b"\xed\xa0\x80", b"\xf8\x88\x80\x80\x80", b"a\x80b"]
+# %s = the carrier's place; hosts: an svgdx document, a real-SVG document (passed through), a namespaced subtree inside an svgdx document
+BYTE_HOSTS = [("svgdx", b'<svg>%s<rect wh="3" text="t"/></svg>'),
+              ("real-root", b'<svg xmlns="http://www.w3.org/2000/svg">%s<rect width="3" height="3"/></svg>'),
+              ("nested-real", b'<svg><rect wh="2"/><svg xmlns="http://www.w3.org/2000/svg" width="5" height="5">%s<circle r="1"/></svg></svg>'),
+              ("specs", b'<svg><specs>%s</specs><rect wh="2"/></svg>')]
+BYTE_CARRIERS = [("pi", b"<?note %s?>"), ("pi-target", b"<?n%s x?>"), ("comment", b"<!-- %s -->"), ("text", b"<text>%s</text>"), ("cdata", b"<style><![CDATA[%s]]></style>"),
+                 ("attr-value", b'<rect wh="1" fill="%s"/>'), ("attr-name", b'<rect wh="1" a%s="1"/>'), ("element-name", b"<e%s/>"), ("underscore-comment", b'<rect wh="1" _="%s"/>'),
+                 ("label", b'<rect wh="1" text="%s"/>')]
+BYTE_PROLOGS = [("xmldecl", b'<?xml version="1.0" encoding="%s"?>'), ("doctype", b"<!DOCTYPE svg [<!-- %s -->]>"), ("doctype-name", b"<!DOCTYPE s%s>"), ("prolog-pi", b"<?p %s?>"),
+                ("prolog-comment", b"<!-- %s -->")]
+
+
+def check_bytes_case(ctx, data, clean, cfg, feats):
+    """input that is not UTF-8: the transform may refuse it; if it answers Ok the output still has to be well-formed UTF-8 XML"""
+    acc = ctx.acc
+    acc.cases += 1
+    case = dict(input=data, cfg=cfg, feats=feats, hostile=True)
+    r = ctx.run(data, cfg)
+    if r.crashed:
+        acc.count("crashed(C01's business)")
+        return
+    acc.nontriv(core.chash(data, core.encode_cfg(cfg)), feats)
+    if r.status != "ok":
+        acc.count("bytes.refused")
+        return
+    acc.count("bytes.accepted")
+    wf, in_root, in_attrs, n_top = root_info(clean)
+    check_output(ctx, case, r.out, in_root if wf else None, in_attrs, n_top)
+
+
+def bytes_family(ctx):
+    k = 0
+    for bad in BAD_UTF8:
+        for hname, host in BYTE_HOSTS:
+            for cname, carrier in BYTE_CARRIERS:
+                k += 1
+                if ctx.mine(k):
+                    for cfg in (None, dict(debug=True, meta=True)):
+                        check_bytes_case(ctx, host % (carrier % bad), host % (carrier % b"x"), cfg, ["bytes.non-utf8", "host." + hname, "carrier." + cname])
+            for pname, prolog in BYTE_PROLOGS:
+                k += 1
+                if ctx.mine(k):
+                    check_bytes_case(ctx, (prolog % bad) + (host % b""), (prolog % (b"UTF-8" if pname == "xmldecl" else b"x")) + (host % b""), None, ["bytes.non-utf8", "host." + hname, "carrier." + pname])
+
+
 def cli_file_stream(ctx):
     """The svgdx command writing to a file: the *file* must be well-formed whatever it held before (a history of renders to
     the same path: long output first, then shorter ones; a pre-existing unrelated file)."""
@@ -225,6 +271,7 @@ def run_shard(ctx):
                     if debug:
                         cfg["debug"] = True
                     check_case(ctx, dict(input=t.encode("utf-8"), cfg=cfg or None, feats=["degenerate-root", "auto." + str(auto)], hostile=True))
+    bytes_family(ctx)
     # corpus and small edge documents under several configurations
     from .c05 import EDGE_DOCS
     docs = corpus.texts() + EDGE_DOCS + ["<svg/><svg/>", "<svg/><rect wh=\"1\"/>", "<rect wh=\"1\"/><svg/>", ""]
